@@ -257,22 +257,25 @@ example : (crashStates demo (.close 0)).map (fun s' => ((find s' 0 70).map (·.2
     [(some 2, some 2, 1), (some 2, some 2, 2), (some 2, some 2, 2), (some 2, some 2, 1)] := by decide
 example : (crashStates demo (.openRun 1 0 2000 8)).map (fun s' => (latest s' 0).map (·.pay)) = [some 2, some 2] := by decide
 
-/-- FULL statement for the recent-history query: in every crash state no run is listed twice (so that
-    `recent n` shows n distinct runs and hides none). -/
-def C07_recent_full : Prop :=
-  ∀ (s : Store) (op : COp) (s' : Store), s' ∈ crashStates s op → ∀ d n, ((recent s' d n).map (·.req)).Nodup
+/-- **C07 (recent-history never lists a run twice).** In EVERY store state — in particular the crash
+    state in which both the compacted twin and the original of a run exist (kill between the twin's
+    write and the original's unlink) — `recent n` lists no request id twice, so the duplicate cannot
+    displace the n-th most recent run (finding F29, fixed by 9dcbd59). -/
+theorem C07_recent_full (s' : Store) (d n : Nat) : ((recent s' d n).map (·.req)).Nodup := by
+  obtain ⟨fs, hrec, _, _, _, _, hnd, _⟩ := P06.C06_recent s' d n
+  rw [hrec]
+  have : (fs.filterMap parse).map (·.req) = fs.filterMap reqOf := by
+    rw [List.map_filterMap]
+    rfl
+  rw [this]
+  exact hnd
 
 /-- two completed runs, the newer one being compacted -/
 def demo2 : Store :=
   [Op.openRun 0 0 1000 7, .write 0 ⟨70, 1⟩, .close 0, .openRun 1 0 2000 8, .write 1 ⟨80, 2⟩].foldl apply {}
 
-/-- **refuted on the current tree (finding F28, open):** killed between the twin's write and the
-    original's unlink, both files of run 80 stay; `recent 2` lists run 80 twice and hides run 70. -/
-theorem C07_recent_full_refuted : ¬ C07_recent_full := by
-  intro h
-  have := h demo2 (.close 1) (closeTwinWritten demo2 ⟨0, 2000, 8, false⟩ ⟨80, 2⟩) (by decide) 0 2
-  revert this
-  decide
+/-- the crash state that used to list run 80 twice and hide run 70 now lists both runs once -/
+example : (recent (closeTwinWritten demo2 ⟨0, 2000, 8, false⟩ ⟨80, 2⟩) 0 2).map (·.req) = [80, 70] := by decide
 
 end BdModel.P07
 
@@ -281,4 +284,4 @@ end BdModel.P07
 #print axioms BdModel.P07.C07_removeOld
 #print axioms BdModel.P07.C07_rename
 #print axioms BdModel.P07.C07_queries_total
-#print axioms BdModel.P07.C07_recent_full_refuted
+#print axioms BdModel.P07.C07_recent_full
